@@ -134,7 +134,10 @@ func NewFloatFromString(typ *types.FloatType, s string) (*Float, error) {
 			if err != nil {
 				return nil, errors.WithStack(err)
 			}
-			f := binary128.NewFromBits(a, b)
+			// The first word holds the LOW 64 bits, the second word the sign,
+			// the exponent and the high bits of the fraction (LLVM builds the
+			// APInt from the pair in little-endian word order).
+			f := binary128.NewFromBits(b, a)
 			x, nan := f.Big()
 			return &Float{Typ: typ, X: x, NaN: nan}, nil
 		// ppc_fp128 (PowerPC double-double arithmetic)
@@ -440,19 +443,20 @@ func (c *Float) Ident() string {
 	case types.FloatKindFP128:
 		// always represent fp128 in hexadecimal floating-point notation.
 		const hexPrefix = 'L'
+		// The low 64 bits are printed first (see NewFloatFromString).
 		if c.NaN {
 			a, b := binary128.NaN.Bits()
 			if c.X != nil && c.X.Signbit() {
 				a, b = binary128.NegNaN.Bits()
 			}
-			return fmt.Sprintf("0x%c%016X%016X", hexPrefix, a, b)
+			return fmt.Sprintf("0x%c%016X%016X", hexPrefix, b, a)
 		}
 		f, acc := binary128.NewFromBig(c.X)
 		if acc != big.Exact {
 			log.Printf("unable to represent floating-point constant %v of type %v exactly; please submit a bug report to llir/llvm with this error message", c.X, c.Typ)
 		}
 		a, b := f.Bits()
-		return fmt.Sprintf("0x%c%016X%016X", hexPrefix, a, b)
+		return fmt.Sprintf("0x%c%016X%016X", hexPrefix, b, a)
 	// ppc_fp128 (PowerPC double-double arithmetic)
 	case types.FloatKindPPC_FP128:
 		// always represent ppc_fp128 in hexadecimal floating-point notation.
